@@ -484,19 +484,22 @@ Definition dial_and_send (ms : list msg) (w : world) : outcome :=
       end
   end.
 
-(* a second program over the same functions: DialWithContext; Send(ms1); Reset; Send(ms2); Close *)
-Definition dial_send_reset_send (ms1 ms2 : list msg) (w : world) : outcome2 :=
+(* a second program over the same functions: DialWithContext; Send(ms1); [Reset;] Send(ms2); Close.
+   Without the Reset it is also what two CONCURRENT Send calls on one dialled Client amount to: Client.Send holds
+   sendMutex across SendWithSMTPClient, so the dialogues are serialised (C13_shared_conn_exclusive; T1: Gen.send_paths). *)
+Definition dial_send_reset_send (do_reset : bool) (ms1 ms2 : list msg) (w : world) : outcome2 :=
   match dial w with
   | (w1, None) => mkOut2 RetDial RetDial None (untouched ms1) (untouched ms2) w1
   | (w1, Some c) =>
       match send_batch ms1 (c, w1) with
       | (st2, (r1, rs1)) =>
-          match reset_with st2 with
+          match (if do_reset then reset_with st2 else (st2, None)) with
           | (st3, re) =>
               match send_batch ms2 st3 with
               | (st4, (r2, rs2)) =>
                   let (st5, closed) := close_with st4 in
-                  mkOut2 r1 r2 (Some (match re with None => true | Some _ => false end)) rs1 rs2 (snd st5)
+                  mkOut2 r1 r2 (if do_reset then Some (match re with None => true | Some _ => false end) else None)
+                         rs1 rs2 (snd st5)
               end
           end
       end
@@ -511,9 +514,13 @@ Definition attr_match (p : option nat * nat) : bool :=
   match fst p with Some t => Nat.eqb t (snd p) | None => false end.
 Definition all_attributed (w : world) : bool := forallb attr_match (w_attr w).
 
-Definition run_reset (X : expects) (F : fixes) (cfg : config) (caps caps_tls : list ext) (script : list decision)
-           (ms1 ms2 : list msg) (render : msg -> list bytes * option err) : outcome2 :=
-  dial_send_reset_send X F cfg render ms1 ms2 (world_init caps caps_tls script).
+Definition run_two_sends (do_reset : bool) (X : expects) (F : fixes) (cfg : config) (caps caps_tls : list ext)
+           (script : list decision) (ms1 ms2 : list msg) (render : msg -> list bytes * option err) : outcome2 :=
+  dial_send_reset_send X F cfg render do_reset ms1 ms2 (world_init caps caps_tls script).
+
+Definition run_reset := run_two_sends true.
+(* Send(ms1) and Send(ms2) called concurrently on one dialled Client, serialised by sendMutex *)
+Definition run_serialised := run_two_sends false.
 
 Definition run_case (X : expects) (F : fixes) (cfg : config) (caps caps_tls : list ext) (script : list decision)
            (ms : list msg) (render : msg -> list bytes * option err) : outcome :=
